@@ -152,7 +152,7 @@ def expander_build(dest=None):
 
 def expand(binary, dsl_texts):
     """run the real macro on definitions; returns list of result dicts"""
-    inp = '\n=====\n'.join(dsl_texts)
+    inp = '\n=====\n'.join(t if t.strip() else '/*empty*/' for t in dsl_texts)
     p = subprocess.run([binary], input=inp, capture_output=True, text=True, timeout=1800)
     if p.returncode != 0:
         raise RuntimeError('expander failed: ' + p.stderr[-2000:])
